@@ -64,6 +64,8 @@ def run(ctx: core.Ctx) -> core.Report:
                 walk.append((None, False))
             if k % 1499 == 0:
                 walk.append((DESTS[1], True))
+        # destinations contacted for the FIRST time only after another destination has wrapped
+        walk += [(DESTS[3], False), (DESTS[3], True), (DESTS[3], False), (DESTS[4], False), (None, False)]
         seqs.append(walk)
     else:
         walk = []
@@ -75,6 +77,9 @@ def run(ctx: core.Ctx) -> core.Report:
                 walk.append((DESTS[2], False))
             if k % 1499 == 0:
                 walk.append((DESTS[2], True))
+            if k == 65535 + 10:
+                walk += [(DESTS[3], False), (DESTS[3], False)]   # first contact after DESTS[1] wrapped
+        walk += [(DESTS[4], False), (DESTS[4], True), (DESTS[4], False)]
         seqs.append(walk)
     ops = []
     results = []
